@@ -19,6 +19,66 @@ CHECKS = {
              'violations, cannot prove absence.',
         note='SQLite file DB; serial requests; pool of 8 providers; '
              'oracle = independent recomputation of roots from parent links'),
+    'C01': dict(
+        engine='api-state-machine', category='exploration', design='4.C01',
+        technique='stateful property-based testing (Hypothesis rule-based '
+                  'machine) with raw-SQL capacity/unit invariant oracle over '
+                  'before/after dumps',
+        text='Random histories building forests and inventories (fractional '
+             'ratios, shrinking below usage) and issuing every form of '
+             'allocation write incl. multi-consumer POST and reshaper with '
+             'amounts biased to capacity/unit boundaries; every accepted write '
+             'is checked against the stored inventory (min/max/step, summed '
+             'usage <= capacity in IEEE double) and usage growth is attributed '
+             'per request. Bounded random exploration.',
+        note='SQLite; serial requests; scope <= 8 providers, 4 classes, 6 '
+             'consumers; capacity evaluated with the property statement\'s '
+             'expression on the stored double'),
+    'C04': dict(
+        engine='api-state-machine', category='exploration', design='4.C04',
+        technique='stateful property-based testing with single-defect request '
+                  'variants; oracle = raw dump equality for rejected writes, '
+                  'body-vs-rows equality for accepted ones',
+        text='Multi-entity writes are generated valid or with one named defect '
+             'on a random entry; a rejected write must leave providers, '
+             'inventories, allocations, consumers, associations and all '
+             'generations byte-identical in the raw dump, an accepted one must '
+             'have applied every named entity. Bounded random exploration.',
+        note='SQLite; serial; projects/users/consumer types may grow as the '
+             'statement allows'),
+    'C08': dict(
+        engine='api-state-machine', category='exploration', design='4.C08',
+        technique='stateful property-based testing with raw-SQL anti-join '
+                  'invariants and a before-state oracle for every DELETE',
+        text='Histories mixing creation, replacement and deletion of all '
+             'entity kinds; after each request no allocation/inventory/'
+             'association may reference a missing row and each DELETE is judged '
+             '(409/400 + unchanged vs 204 + cascade) from the raw state before '
+             'it. Bounded random exploration.',
+        note='SQLite (no FK enforcement beyond what placement declares); serial'),
+    'C10': dict(
+        engine='api-state-machine', category='exploration', design='4.C10',
+        technique='stateful property-based testing; oracle = generation deltas '
+                  'between raw dumps per request',
+        text='All write routes and reads in random histories; strict increase '
+             'on every change of inventories/traits/aggregates(>=1.19)/'
+             'allocations, no change on reads and rejected requests, no '
+             'decrease ever, returned generation == stored == next GET. '
+             'Bounded random exploration.',
+        note='no-op writes may or may not bump (both accepted); entity '
+             'identity = row id'),
+    'C12': dict(
+        engine='api-state-machine', category='exploration', design='4.C12',
+        technique='stateful property-based testing over microversion windows '
+                  'and generated config; oracle = raw consumers/allocations '
+                  'set equality plus snapshot probe of a null-generation write',
+        text='Allocation writing/clearing/deleting histories over 6 consumers '
+             'in four microversion windows with generated incomplete-consumer '
+             'placeholders; consumers table must equal the set of allocation '
+             'holders after every request, attributes must be those of the '
+             'last write, and a removed/rejected consumer must be creatable '
+             'again with generation null. Bounded random exploration.',
+        note='SQLite; serial; probe runs on a snapshot that is restored'),
 }
 
 NOT_APPLICABLE = {}
